@@ -142,9 +142,12 @@ def plan(tier, seed):
       continue
     if c and not (set(c) & set(structural)):
       continue
-    for D in ([2] if tier == "quick" else [2, 4]):
-      tasks.append({"name": "%s|T2|pmap%d" % (cfg_name(c), D), "cfg": c,
-                    "tree": "T2", "mode": "pmap", "ndev": D,
+    for D, tr in ([(2, "T2"), (2, "T1")] if tier == "quick" else
+                  [(2, "T2"), (4, "T2"), (2, "T1"), (3, "T1")]):
+      # T1: 3 statistics of sizes 2, 3, 3 - padded to a multiple of D, the
+      # devices hold statistics of different sizes at the same slot
+      tasks.append({"name": "%s|%s|pmap%d" % (cfg_name(c), tr, D), "cfg": c,
+                    "tree": tr, "mode": "pmap", "ndev": D,
                     "depth": 3 if tier == "quick" else 4,
                     "events": names, "seed": seed,
                     "profile": {"x64": True, "devices": D}, "part": "pmap",
